@@ -50,30 +50,39 @@ def extract_ops(ex, run, loc_of):
 
 def interleave(threads, init, final_assert, extra=(), timeout_ms=60000):
     """threads: [[Op]]; init: {loc: z3 term}; final_assert(mem: {loc: term}) -> z3 Bool that must hold.
-    Returns ('unsat', None) when no schedule violates it, ('sat', model_info) otherwise."""
+    Returns ('unsat', None) when no schedule violates it, ('sat', model_info) otherwise. Pure bit-vector encoding."""
     n = len(threads)
     T = sum(len(t) for t in threads)
-    s = z3.Solver()
+    SW = max(2, n.bit_length() + 1)
+    PW = max(2, (max(len(t) for t in threads) + 1).bit_length() + 1)
+    s = z3.SolverFor('QF_BV')
     s.set('timeout', timeout_ms)
     for e in extra:
         s.add(e)
-    sched = [z3.Int('sched_%d' % t) for t in range(T)]
-    pcs = [[z3.IntVal(0)] for _ in range(n)]
+    sched = [z3.BitVec('sched_%d' % t, SW) for t in range(T)]
+    pcs = [[z3.BitVecVal(0, PW)] for _ in range(n)]
     mem = {loc: v for loc, v in init.items()}
     for t in range(T):
-        s.add(sched[t] >= 0, sched[t] < n)
+        s.add(z3.ULT(sched[t], n))
         newmem = dict(mem)
         for i, prog in enumerate(threads):
             here = sched[t] == i
-            s.add(z3.Implies(here, pcs[i][-1] < len(prog)))
+            s.add(z3.Implies(here, z3.ULT(pcs[i][-1], len(prog))))
             for k, op in enumerate(prog):
                 act = z3.And(here, pcs[i][-1] == k)
                 if op.reg is not None:
                     s.add(z3.Implies(act, op.reg == mem[op.loc]))
                 if op.new is not None:
                     newmem[op.loc] = z3.If(act, op.new, newmem[op.loc])
-            pcs[i].append(z3.If(here, pcs[i][-1] + 1, pcs[i][-1]))
-        mem = newmem
+            nxt = z3.BitVec('pc_%d_%d' % (i, t + 1), PW)
+            s.add(nxt == z3.If(here, pcs[i][-1] + 1, pcs[i][-1]))
+            pcs[i].append(nxt)
+        named = {}
+        for loc, v in newmem.items():
+            var = z3.BitVec('mem_%s_%d' % (loc, t + 1), v.size())
+            s.add(var == v)
+            named[loc] = var
+        mem = named
     for i, prog in enumerate(threads):
         s.add(pcs[i][-1] == len(prog))
     s.add(z3.Not(final_assert(mem)))
